@@ -129,6 +129,10 @@ func (s *Server) livesimHandlerFunc(w http.ResponseWriter, r *http.Request) {
 		if len(cfg.Traffic) > 0 {
 			var patternNr int
 			patternNr, segmentPart = extractPattern(segmentPart)
+			if patternNr >= len(cfg.Traffic) {
+				http.Error(w, "Not Found", http.StatusNotFound) // No such BaseURL
+				return
+			}
 			if patternNr >= 0 {
 				itvls := cfg.Traffic[patternNr]
 				switch itvls.StateAt(nowMS / 1000) {
